@@ -594,6 +594,11 @@ func checkC13(e *Engine, r *Report) {
 		r.Check(okA, "ELEmitEventDecorator › txIndex attribute", e.Pos(em.Pos()), "GetTxCountTransient(ctx) − 1", "the ethereum_tx event's index is not the Ethereum transaction counter − 1")
 	})
 
+	r.Rule("R8", "CENSUS-ORDER", "the current transaction index (GetTxCountTransient − 1) is used only after the transaction was counted: every ante decorator that reads the transaction counter — directly or through an EVM-keeper accessor keyed by it — is placed after the decorator that calls SetupExecutionContext", 1, func() {
+		n, probs := txIndexUsedOnlyAfterCounting(e)
+		r.Check(len(probs) == 0 && n > 0, "ante chain › tx index used only after counting", e.Pos(sec.Pos()), itoa(n)+" counter-dependent decorator(s), all after SetupExecutionContext", "a per-transaction value is keyed by the transaction index before the transaction is counted (it lands under the previous transaction's index and is looked up under the next one): "+strings.Join(probs, "; "))
+	})
+
 	r.Rule("R7", "KEY-INJECTIVE", "the per-transaction transient slots (gas, log count, receipt) are keyed injectively by the transaction index: prefix ‖ big-endian index, nothing truncated, nothing dropped", 3, func() {
 		e.checkKeyBuilders(r, pkgEvmTypes, []string{"TxGasTransientKey", "TxLogCountTransientKey", "TxReceiptTransientKey"}, "two transactions of a block share one slot: a receipt, gas or log count of one overwrites the other's")
 	})
@@ -629,5 +634,66 @@ func cumulativeGasShape(e *Engine) (loopOK, ownOK bool) {
 			}
 		}
 	})
+	return
+}
+
+// txIndexUsedOnlyAfterCounting (shared by C13-R8 and C05-R8): the "current transaction index" is GetTxCountTransient(ctx) − 1 and is
+// meaningful only once the transaction has been counted by SetupExecutionContext (IncreaseTxCountTransient). Every ante
+// decorator that (transitively, inside the EVM keeper) reads the transaction counter must therefore sit AFTER the decorator
+// that calls SetupExecutionContext in the chain; a per-transaction value keyed by that index from an earlier decorator is
+// written under the previous transaction's index and read under the next one.
+func txIndexUsedOnlyAfterCounting(e *Engine) (checked int, problems []string) {
+	ds := decoratorCensus(e)
+	indexChain(ds, chainLiteral(e))
+	setupExec := decoratorCalling(ds, "evm", CallSpec{pkgEvmKeeper, "Keeper", "SetupExecutionContext"})
+	if setupExec == nil || setupExec.Index < 0 {
+		return 0, []string{"the decorator calling SetupExecutionContext is not in the chain"}
+	}
+	// keeper functions that reach the counter through static calls inside the keeper package
+	reads := map[*ssa.Function]bool{}
+	for _, nm := range []string{"Keeper.GetTxCountTransient", "Keeper.GetRawTxCountTransient"} {
+		if f := e.TryFn(pkgEvmKeeper, nm); f != nil {
+			reads[f] = true
+		}
+	}
+	kfs := e.SrcFuncs(func(p string) bool { return p == pkgEvmKeeper })
+	for changed := true; changed; {
+		changed = false
+		for _, f := range kfs {
+			if reads[f] || f.Parent() != nil {
+				continue
+			}
+			if f.Name() == "SetupExecutionContext" || f.Name() == "IncreaseTxCountTransient" {
+				continue // the counting step itself
+			}
+			for _, c := range callsIn(f, true, func(ssa.CallInstruction) bool { return true }) {
+				if sc := c.Common().StaticCallee(); sc != nil && reads[sc] {
+					reads[f] = true
+					changed = true
+					break
+				}
+			}
+		}
+	}
+	for _, d := range ds {
+		if d.Index < 0 || d == setupExec {
+			continue
+		}
+		var used []string
+		for _, c := range callsIn(d.Fn, true, func(ssa.CallInstruction) bool { return true }) {
+			if sc := c.Common().StaticCallee(); sc != nil && reads[sc] {
+				used = append(used, sc.Name())
+			}
+		}
+		if len(used) == 0 {
+			continue
+		}
+		checked++
+		if d.Index < setupExec.Index {
+			sort.Strings(used)
+			problems = append(problems, d.Name()+" (position "+itoa(d.Index)+", before "+setupExec.Name()+" at "+itoa(setupExec.Index)+") depends on the transaction counter through "+strings.Join(dedup(used), ", "))
+		}
+	}
+	sort.Strings(problems)
 	return
 }
